@@ -18,14 +18,18 @@ def _quiet_stdout():
     import sys
 
     sys.stdout.flush()
-    saved = os.dup(1)
+    sys.stderr.flush()
+    saved1, saved2 = os.dup(1), os.dup(2)
     devnull = os.open(os.devnull, os.O_WRONLY)
     try:
         os.dup2(devnull, 1)
+        os.dup2(devnull, 2)
         yield
     finally:
-        os.dup2(saved, 1)
-        os.close(saved)
+        os.dup2(saved1, 1)
+        os.dup2(saved2, 2)
+        os.close(saved1)
+        os.close(saved2)
         os.close(devnull)
 
 
